@@ -26,17 +26,29 @@ def nq_consts(**kw):
 
 def rq_consts(**kw):
     c = {'Threads': '<-ThreadsDef', 'MThreads': '<-ThreadsDef', 'Locs': '<-LocsDef', 'InitVal': '<-InitValDef', 'AbsStep': '<-QStep', 'Ord': '<-OrdCode', 'Weak': False,
-         'NT': 2, 'NNodes': 3, 'EPN': 1, 'StepSz': ramalhete_step_size(), 'PopRetries': 0, 'Progs': '<-ProgLost', 'SetupOps': 0,
+         'NT': 2, 'NNodes': 3, 'EPN': 1, 'PopRetries': 0, 'Progs': '<-ProgLost', 'SetupOps': 0,
          'Invalidate': True, 'ResetPushIdx': True, 'DtorClamp': True, 'EmptyNeedsNext': True, 'HelpTail': ramalhete_helps_tail()}
     c.update(kw)
+    if 'StepSz' not in c:
+        c['StepSz'] = ramalhete_step_size(c['EPN'])
     return c
 
 
-def ramalhete_step_size():
-    """step_size is a private constant of ramalhete_queue: read from the tree (default 11)"""
+def ramalhete_step_size(epn=1):
+    """step_size is a private constant of ramalhete_queue: read from the tree - a literal, or (since fix: C04-ramalhete-step-size) the first prime of a
+       list that does not divide entries_per_node (default 11)"""
     try:
-        m = re.search(r'static constexpr unsigned step_size = (\d+);', open(os.path.join(REPO, 'xenium/ramalhete_queue.hpp')).read())
-        return int(m.group(1)) if m else 11
+        src = open(os.path.join(REPO, 'xenium/ramalhete_queue.hpp')).read()
+        m = re.search(r'static constexpr unsigned step_size = (\d+);', src)
+        if m:
+            return int(m.group(1))
+        m = re.search(r'primes\[\] = \{([0-9, ]+)\}', src)
+        if m and 'calc_step_size(entries_per_node)' in src:
+            for p in [int(x) for x in m.group(1).split(',')]:
+                if epn % p != 0:
+                    return p
+            return 1
+        return 11
     except Exception:
         return 11
 
@@ -122,6 +134,10 @@ def run_models(ctx, pid):
             lambda: tlc_mc(ctx, 'rq_lost', 'Ramalhete', rq_consts(), invariants=INV_RQ, view='mcview', workers=6, must_cover=RQ_ACTIONS),
             lambda: tlc_mc(ctx, 'rq_full_node', 'Ramalhete', rq_consts(Progs='<-ProgFull', NNodes=4), invariants=INV_RQ, view='mcview', workers=4),
             lambda: tlc_mc(ctx, 'rq_epn2_retries', 'Ramalhete', rq_consts(Progs='<-ProgFull', EPN=2, PopRetries=1), invariants=INV_RQ, view='mcview', workers=4),
+            # index step and node size not coprime (entries_per_node a multiple of 11 before fix: C04-ramalhete-step-size): the index sequence
+            # does not visit every entry once
+            lambda: tlc_mc(ctx, 'rq_toggle_step_not_coprime', 'Ramalhete', rq_consts(Progs='<-ProgFull', EPN=2, StepSz=2, NNodes=4), invariants=INV_RQ, view='mcview', workers=4,
+                           expect='violation'),
             lambda: tlc_mc(ctx, 'rq_toggle_tail_lags', 'Ramalhete', rq_consts(Progs='<-ProgTail', HelpTail=False), invariants=INV_RQ, view='mcview', workers=4, expect='violation'),
             lambda: tlc_mc(ctx, 'rq_toggle_no_invalidate', 'Ramalhete', rq_consts(Progs='<-ProgPP', Invalidate=False), invariants=INV_RQ, view='mcview', workers=4,
                            expect='violation'),
